@@ -64,6 +64,13 @@ add("C01", "exploration", "runtime monitoring: value of every memento function a
     "Generated two-module programs with 17 edit kinds, delivered across processes against one persistent store or inside a running process (cell-style re-execution, rebinding/mutation of variables, module reload); every function is called twice after every edit and compared with running Python on the same source with memento_function = identity.",
     "The twin execution defines the expected value; explicit versions above an edit are bumped (their contract); UndeclaredDependencyError is accepted; in cell-style delivery, imports and aliases that copy a re-executed definition are re-executed too.", "DESIGN.md §4 C01")
 
+add("C03", "exploration", "runtime monitoring: version maps reported by real interpreters under different PYTHONHASHSEED values, definition orders and query orders; execution trace file of a second process on the first one's store",
+    "Every generated program (all contain set and tuple constants, nested code and cross-module references) is imported by 8 (quick) / 24 (thorough) real interpreters; all version maps must be identical; a second interpreter with another hash seed and other orders must execute no body at all on the first one's store.",
+    "Each interpreter is a fresh /venv/bin/python process; PYTHONHASHSEED values are a sample.", "DESIGN.md §4 C03")
+add("C13", "exploration", "runtime monitoring: version() of every registered function after every prefix of an in-process event sequence, compared with the versions a pristine forked child computes from the identical compilation units of the resulting program",
+    "Event sequences mixing redefinitions, rebinding/mutation of variables, alias re-binding, late-defined symbols, memento/plain switches, modifier clones and unregistered wrappers, with interleaved subset queries; after every event the running process's versions are compared with a from-scratch computation in a fresh child.",
+    "The oracle child executes the base files with superseded definitions cut out plus the surviving cells (same pseudo-filenames), i.e. the code's own from-scratch computation; clones/wrappers are judged only at creation.", "DESIGN.md §4 C13")
+
 NOT_BUILT = "check not built yet in this round (design in DESIGN.md §4); will be claimed once its monitor exists"
 
 
